@@ -281,15 +281,14 @@ impl LuaEngine {
     fn resp_frame_to_lua_value(lua_ctx: &Lua, frame: RespFrame, is_pcall: bool) -> LuaResult<LuaValue> {
         match frame {
             RespFrame::SimpleString(bytes) => {
-                let string_val = String::from_utf8_lossy(&bytes).into_owned();
-                match lua_ctx.create_string(&string_val) {
+                match lua_ctx.create_string(bytes.as_slice()) {
                     Ok(lua_string) => Ok(LuaValue::String(lua_string)),
                     Err(e) => Self::handle_command_error_with_context(lua_ctx, e.to_string(), is_pcall),
                 }
             }
             RespFrame::BulkString(Some(bytes)) => {
-                let string_val = String::from_utf8_lossy(&bytes).into_owned();
-                match lua_ctx.create_string(&string_val) {
+                // Byte for byte: a Lua string holds arbitrary bytes
+                match lua_ctx.create_string(bytes.as_slice()) {
                     Ok(lua_string) => Ok(LuaValue::String(lua_string)),
                     Err(e) => Self::handle_command_error_with_context(lua_ctx, e.to_string(), is_pcall),
                 }
